@@ -804,14 +804,18 @@ class ContextStateTransaction(_TransactionBase):
                 raise ApiUsageError('Transaction only handles context states!')
 
             tmp = copy.deepcopy(state_container)
+            # the entity can be older than the mdib (descriptor updated since it was read):
+            # the state belongs to the descriptor as it is in the mdib now.
+            descriptor_container = self._mdib.descriptions.handle.get_one(entity.handle)
 
             if old_state is None:
                 # this is a new state
-                tmp.descriptor_container = entity.descriptor
-                tmp.DescriptorVersion = entity.descriptor.DescriptorVersion
+                tmp.descriptor_container = descriptor_container
+                tmp.DescriptorVersion = descriptor_container.DescriptorVersion
                 if adjust_version_counter:
                     self._mdib.context_states.set_version(tmp)
             elif adjust_version_counter:
+                tmp.DescriptorVersion = descriptor_container.DescriptorVersion
                 tmp.StateVersion = old_state.StateVersion + 1
 
             self._state_updates[state_container.Handle] = TransactionItem(old=old_state, new=tmp)
